@@ -62,6 +62,40 @@ func c05r1(r *R) {
 			} else {
 				o.OK("every path from the name lookup passes Out.Header.Set/Del(name)")
 			}
+			// the computed value is set whenever there is one: the Set of this name is conditional on nothing but the
+			// injector having succeeded and (optionally) the value being non-empty
+			o3 := r.Ob("C05.R1", "set-when-computed:"+funcName(fn)).AtI(site)
+			nset := 0
+			eachInstr(fn, func(i ssa.Instruction) {
+				if !isCall(i, nHeaderSet) {
+					return
+				}
+				a := callOf(i).Args
+				if len(a) < 3 || !isOutHeader(c, a[0]) || a[1] != ssa.Value(call) {
+					return
+				}
+				nset++
+				val := c.Expr(a[2])
+				errE := strings.TrimSuffix(val, "#0") + "#1"
+				for _, alt := range c.pathAlts(i.Block()) {
+					sawOK := false
+					for _, l := range alt {
+						one := []string{l}
+						switch {
+						case strings.Contains(l, " < builtin.len(p") && strings.Contains(l, ".HeaderInjectors))"):
+						case strings.HasSuffix(val, "#0") && relHolds(one, errE, "==", "nil"):
+							sawOK = true
+						case relHolds(one, val, "!=", `""`) || relHolds(one, "builtin.len("+val+")", "!=", "0") || relHolds(one, "builtin.len("+val+")", ">", "0"):
+						default:
+							o3.AtI(i).Fail("the header is set only under the extra condition %s (conditions %v): requests for which it fails go out without the fingerprint header", l, alt)
+						}
+					}
+					if strings.HasSuffix(val, "#0") {
+						o3.AtI(i).Check(sawOK, "the header is set without the injector's error having been checked (conditions %v)", alt)
+					}
+				}
+			})
+			o3.Check(nset >= 1, "no Out.Header.Set(name, value) for the injector's name found")
 			// every configured injector is visited: the site sits in a range loop over the handler's injector list that
 			// is left only when the list is exhausted (no return, break or panic inside the loop)
 			o2 := r.Ob("C05.R1", "all-injectors-visited:"+funcName(fn)).AtI(site)
